@@ -192,7 +192,13 @@ func (u *Unmarshaler) Unmarshal(serialized []byte) (*Biscuit, error) {
 		return nil, err
 	}
 
+	// Extend drops strings the table already holds, which would shift the
+	// indexes of the block's later symbols: such a table is malformed
+	known := symbols.Len()
 	symbols.Extend(authority.symbols)
+	if symbols.Len() != known+authority.symbols.Len() {
+		return nil, ErrSymbolTableOverlap
+	}
 
 	blocks := make([]*Block, len(container.Blocks))
 	for i, sb := range container.Blocks {
@@ -213,7 +219,11 @@ func (u *Unmarshaler) Unmarshal(serialized []byte) (*Biscuit, error) {
 			return nil, err
 		}
 		blocks[i] = block
+		known := symbols.Len()
 		symbols.Extend(blocks[i].symbols)
+		if symbols.Len() != known+blocks[i].symbols.Len() {
+			return nil, ErrSymbolTableOverlap
+		}
 	}
 
 	return &Biscuit{
